@@ -23,6 +23,9 @@ pub fn install_hook() {
         } else {
             "<non-string panic payload>".to_string()
         };
+        if std::env::var_os("NV_BACKTRACE").is_some() {
+            eprintln!("panic at {file}:{line}: {msg}\n{}", std::backtrace::Backtrace::force_capture());
+        }
         if let Ok(mut g) = LAST.lock() {
             // keep the FIRST panic of a case (a second one is usually a consequence)
             if g.is_none() {
